@@ -167,6 +167,75 @@ def trigPoly (a b : Nat → K) (B N : Nat) (j : Nat) : K :=
 
 end
 
+/-! ### variables by name on the channel axis
+
+  `Model._fix_points_order` (first statement of `FNO.forward`, `Sequential.forward`) and the slice
+  `points[..., list(model.input_space.keys())]` of `Parallel.forward`: the channel axis of a `Points`
+  object is laid out by its space (an ordered list of named variables with dimensions); a model picks
+  the columns of its own variables, in its own order, at EVERY grid point (the index acts on the last
+  axis only). -/
+
+abbrev Vars := List (String × Nat)
+
+def vdim : Vars → Nat
+  | [] => 0
+  | (_, d) :: S => d + vdim S
+
+def keysOf (S : Vars) : List String := S.map (·.1)
+
+/-- which variable / component sits in column `c` of the layout `S` -/
+def decode : Vars → Nat → Option (String × Nat)
+  | [], _ => none
+  | (v, d) :: S, c => if c < d then some (v, c) else decode S (c - d)
+
+/-- the column of component `j` of variable `v` in the layout `S` (first variable of that name) -/
+def encode : Vars → String → Nat → Option Nat
+  | [], _, _ => none
+  | (w, d) :: S, v, j => if w = v then (if j < d then some j else none) else (encode S v j).map (· + d)
+
+/-- the source column that destination column `c` is read from -/
+def srcCol (src dst : Vars) (c : Nat) : Option Nat :=
+  (decode dst c).bind fun vj => encode src vj.1 vj.2
+
+/-- every column of the layout `dst` exists in `src` (else the code raises a KeyError) -/
+def selectable (src dst : Vars) : Bool :=
+  (List.range (vdim dst)).all fun c => (srcCol src dst c).isSome
+
+/-- re-layout of one channel vector; columns `≥ vdim dst` do not exist in the result and are never read -/
+def relayout {K : Type} (src dst : Vars) (v : Nat → K) : Nat → K :=
+  fun c => match srcCol src dst c with
+    | some s => v s
+    | none => v c
+
+/-- `points[..., list(dst.keys())]`: the same grid, channels picked by name -/
+def selectVars {K : Type} (src dst : Vars) (x : Idx → Nat → K) : Option (Idx → Nat → K) :=
+  if selectable src dst then some (fun n => relayout src dst (x n)) else none
+
+def sameKeySet (A B : Vars) : Bool :=
+  (keysOf A).all (fun k => (keysOf B).contains k) && (keysOf B).all (fun k => (keysOf A).contains k)
+
+/-- `Model._fix_points_order`: nothing to do for the model's own space, a ValueError (`none`) for other
+    variable names, otherwise the columns in the model's order -/
+def fixOrder {K : Type} (src inS : Vars) (x : Idx → Nat → K) : Option (Idx → Nat → K) :=
+  if src = inS then some x
+  else if sameKeySet src inS then selectVars src inS x
+  else none
+
+section
+variable {K : Type} [Add K] [Sub K] [Mul K] [Div K] [Neg K] [Trig K]
+
+/-- `FNO.forward` on a `Points` object whose channels are laid out by `src` -/
+def fnoFix (src inS : Vars) (pre : List Nat) (last C : Nat) (up down : (Nat → K) → (Nat → K))
+    (layers : List (Layer K × (K → K))) (x : Idx → Nat → K) : Option (Idx → Nat → K) :=
+  (fixOrder src inS x).map (fno pre last C up down layers)
+
+/-- an FNO as a member of `Parallel`: `model(points[..., list(model.input_space.keys())])` -/
+def fnoSelect (src inS : Vars) (pre : List Nat) (last C : Nat) (up down : (Nat → K) → (Nat → K))
+    (layers : List (Layer K × (K → K))) (x : Idx → Nat → K) : Option (Idx → Nat → K) :=
+  ((selectVars src inS x).bind (fixOrder inS inS)).map (fno pre last C up down layers)
+
+end
+
 /-! ### which buffers `_FourierLayer.forward` writes to
 
   The forward pass is a straight-line program over tensor buffers.  `alloc` steps bind a variable to a
